@@ -15,7 +15,7 @@
  *   TE/AE/QE/ME/PE:<key>:<ERRNO>   the call fails with that errno
  *   names are hex, '-' is the empty name.  A key without entry: success with an empty answer.
  * Requests:
- *   spf <domain> SESS ZONE...              -> <ret> <spfexp|N> <mechanism|N> <queries>
+ *   spf <domain> SESS ZONE...              -> <ret> <spfexp|N> <mechanism|N> <queries>   (spfr: the same)
  *   makro <ex> <token> <domain> SESS ZONE  -> <ret> <result|N> <queries>
  *   domainspec <domain> <token> SESS ZONE  -> <ret> <domainspec|N> <ip4cidr> <ip6cidr> <queries>
  *   received <spf> <spfexp|N> <mech|N> SESS -> <ret> <bytes written>
@@ -264,7 +264,7 @@ int main(void)
 		size_t l, l2, l3;
 		if (n == 0) { puts("bad-op"); continue; }
 		zone_clear(); sess_free(); wlen = 0;
-		if (strcmp(tok[0], "spf") == 0 && n >= 9) {
+		if ((strcmp(tok[0], "spf") == 0 || strcmp(tok[0], "spfr") == 0) && n >= 9) {
 			int k = sess_load(tok + 2, n - 2);
 			if (k < 0) { puts(k == -2 ? "PRECOND" : "bad-op"); continue; }
 			int bad = 0;
